@@ -381,12 +381,12 @@ def st_case(draw):
         calib = [0, 0]
     else:
         calib = [draw(st.integers(1, ny // 2)), draw(st.integers(1, nx // 2))]
-    if ny * nx <= 1024 and draw(st.sampled_from([False] * 5 + [True])):
+    if ny * nx <= 1024 and draw(st.sampled_from([False, False, True])):
         # a LARGE calibration region (60-85 % of each axis) with an acceleration it still leaves reachable
         fy, fx = draw(st.integers(60, 85)) / 100.0, draw(st.integers(60, 85)) / 100.0
         calib = [max(1, min(ny - 2, int(fy * ny))), max(1, min(nx - 2, int(fx * nx)))]
         amax = (ny * nx) / float(calib[0] * calib[1])
-        accel = 1.0 + draw(st.integers(10, 80)) / 100.0 * (amax - 1.0)
+        accel = 1.0 + draw(st.sampled_from([30, 60, 80, 90, 95, 95, 97])) / 100.0 * (amax - 1.0)
     tol = draw(st.one_of(st.sampled_from((0.1, 0.2, 0.05, 0.3, 0.01)), st.floats(0.01, 0.3, allow_nan=False)))
     seed = draw(st.one_of(st.just(0), st.integers(0, 100), st.integers(0, 2 ** 31 - 1)))
     crop = draw(st.booleans())
